@@ -412,10 +412,85 @@ static void try_diff(const char *doc, size_t len)
   hv_ctxkey("%s", "");
 }
 
+/* metamorphic case: the order in which two adjacent sibling <object> elements (normal objects with non-empty cpusets) appear in a valid
+ * document is irrelevant - the importer re-sorts children and says so in hwloc__xml_import_report_outoforder(). The swapped document must
+ * load, be well formed and be observably identical to the original one. */
+static int swappable(const struct xdoc *d, const struct xnode *x)
+{
+  if (strcmp(x->name, "object")) return 0;
+  struct xattr a[40]; unsigned n = xattrs(d, x, a, 40); int ok = 0;
+  for (unsigned i = 0; i < n; i++) { size_t nl = a[i].ne - a[i].ns, vl = a[i].ve - a[i].vs; const char *nm = d->txt + a[i].ns, *v = d->txt + a[i].vs;
+    if (nl == 4 && !strncmp(nm, "type", 4)) { static const char *const no[] = { "NUMANode", "MemCache", "Bridge", "PCIDev", "OSDev", "Misc", "Machine" }; ok = 1; for (unsigned q = 0; q < 7; q++) if (vl == strlen(no[q]) && !strncmp(v, no[q], vl)) ok = 0; if (!ok) return 0; }
+    if ((nl == 6 && !strncmp(nm, "cpuset", 6)) || (nl == 15 && !strncmp(nm, "complete_cpuset", 15))) {      /* objects without CPUs have no defined place among their siblings */
+      char val[4096]; if (vl >= sizeof val) return 0; memcpy(val, v, vl); val[vl] = 0; hwloc_bitmap_t bm = hwloc_bitmap_alloc(); int z = hwloc_bitmap_sscanf(bm, val) != 0 || hwloc_bitmap_iszero(bm); hwloc_bitmap_free(bm); if (z) return 0; } }
+  return ok;
+}
+static hwloc_topology_t load_keepall_buffer(const char *doc, size_t len, unsigned long flags)
+{
+  hwloc_topology_t t; hwloc_topology_init(&t); hwloc_topology_set_all_types_filter(t, HWLOC_TYPE_FILTER_KEEP_ALL); hwloc_topology_set_flags(t, flags);
+  char *exact = malloc(len + 1); memcpy(exact, doc, len); exact[len] = 0;
+  int rc = hwloc_topology_set_xmlbuffer(t, exact, (int)len + 1); if (rc == 0) rc = hwloc_topology_load(t);
+  free(exact);
+  if (rc != 0) { hwloc_topology_destroy(t); return NULL; }
+  return t;
+}
+static void swap_case(void)
+{
+  size_t blen = 0; int is_diff = 0; char what[400];
+  hv_ctxkey("base_document");
+  char *base = base_document(&blen, &is_diff, what, sizeof what);
+  if (!base || is_diff) { free(base); hv_stat("sibling_swap.no_document", 1); return; }
+  hv_desc_reset();
+  struct xdoc d; xparse(&d, base, blen);
+  int pa[512], pb[512]; unsigned np = 0;
+  for (unsigned i = 0; i < d.nn && np < 512; i++) { if (!swappable(&d, &d.n[i])) continue;
+    for (unsigned j = i + 1; j < d.nn; j++) if (d.n[j].parent == d.n[i].parent && d.n[j].s >= d.n[i].end) { if (!strcmp(d.n[j].name, "object") && swappable(&d, &d.n[j])) { pa[np] = (int)i; pb[np] = (int)j; np++; } break; } }
+  if (!np) { xfree(&d); free(base); hv_stat("sibling_swap.no_pair", 1); return; }
+  unsigned k = (unsigned)hv_below(&R, np); const struct xnode *a = &d.n[pa[k]], *b = &d.n[pb[k]];
+  struct hv_str x; hv_str_init(&x);
+  hv_str_addn(&x, base, a->s); hv_str_addn(&x, base + b->s, b->end - b->s); hv_str_addn(&x, base + a->end, b->s - a->end); hv_str_addn(&x, base + a->s, a->end - a->s); hv_str_addn(&x, base + b->end, blen - b->end);
+  /* always with INCLUDE_DISALLOWED: without it, objects whose CPUs are all disallowed lose their cpuset at load time and CPU-less siblings
+   * have no defined order (they stay in document order) */
+  unsigned long flags = HWLOC_TOPOLOGY_FLAG_INCLUDE_DISALLOWED | (hv_chance(&R, 1, 2) ? HWLOC_TOPOLOGY_FLAG_IMPORT_SUPPORT : 0);
+  hv_desc("base: %s (%zu bytes); sibling <object> elements at offsets %zu and %zu swapped; flags %#lx; backend %s\n", what, blen, a->s, b->s, flags, backend);
+  hv_ctxkey("sibling_swap:load_original");
+  hwloc_topology_t t1 = load_keepall_buffer(base, blen, flags);
+  if (!t1) hv_stat("sibling_swap.original_rejected", 1);
+  else {
+    hv_ctxkey("sibling_swap:load_swapped");
+    hwloc_topology_t t2 = load_keepall_buffer(x.s, x.len, flags);
+    char kp[120]; snprintf(kp, sizeof kp, "sibling_swap/%s/", backend);
+    if (!t2) hv_viol("sibling_swap.rejected", "a valid document with two adjacent sibling objects swapped is rejected");
+    else {
+      if (wf_check(t2, kp) == 0) {
+        wf_builtin(t2, "sibling_swap");
+        /* CPU-less normal objects have no defined place among their siblings (a re-sort may permute them): such topologies are checked for
+         * well-formedness only */
+        int cpuless = 0; { int td = hwloc_topology_get_depth(t1); for (int dd = 0; dd < td && !cpuless; dd++) for (hwloc_obj_t o = NULL; (o = hwloc_get_next_obj_by_depth(t1, dd, o)) != NULL; ) if (hwloc_bitmap_iszero(o->cpuset)) { cpuless = 1; break; } }
+        if (cpuless) { hv_stat("sibling_swap.cpuless_objects_wf_only", 1); goto swapped_done; }
+        /* documents without gp_index attributes (hwloc 2.0 and older) get their gp_index values in document order: not compared then */
+        unsigned cw = strstr(base, " gp_index=\"") ? CANON_ALL : CANON_ALL & ~(unsigned)CANON_GP;
+        struct hv_str c1, c2; hv_str_init(&c1); hv_str_init(&c2); canon_dump(t1, cw, &c1); canon_dump(t2, cw, &c2);
+        const char *df = canon_diff(&c1, &c2);
+        if (df) hv_viol("sibling_swap.differs", "the document with two sibling objects swapped loads into a different topology: %s", df);
+        hv_str_free(&c1); hv_str_free(&c2);
+      }
+      swapped_done:
+      hv_stat("sibling_swap.compared", 1); hv_distinct(4, hv_hash_u64(a->s, hv_hash_str(what, flags)));
+      hwloc_topology_destroy(t2);
+    }
+    hwloc_topology_destroy(t1);
+  }
+  hv_str_free(&x); xfree(&d); free(base);
+  hv_ctxkey("%s", "");
+  hv_leak_check();
+}
+
 void hv_case(uint64_t index)
 {
   hv_rng_seed(&R, HV.seed, "c06", index);
   if (witness_case(index)) return;
+  if ((index / 16) % 8 == 3) { swap_case(); return; }
   size_t blen = 0; int is_diff = 0; char what[400];
   hv_ctxkey("base_document");
   char *base = base_document(&blen, &is_diff, what, sizeof what);
